@@ -37,4 +37,66 @@ PROPS = {
            ("bytes-rand", "oracle-C15", 4000, 40000), ("prog", "oracle-C15", 2000, 20000), ("prog-mut", "oracle-C15", 2000, 20000)],
    oracle_for_stage=LEX_ORACLE_STAGES,
    corpus=["lex.txt"], tables=["Gen/Tables.v: kind, keywords"]),
+ "C01": dict(
+   corr=[("expr", "compile", 4000, 40000), ("prog", "compile", 2000, 20000), ("prog-params", "compile", 2000, 20000), ("lets", "compile", 1500, 15000)],
+   oracle=[("expr", "oracle-C12", 1500, 15000)],
+   corpus=["compile.txt"], tables=["Gen/Tables.v: op_prec, binop_sql, known_funcs, writer_arity, writer_template, builtin_idents"]),
+ "C02": dict(
+   corr=[("pipes-exh-3", "compile", 0, 0), ("pipes", "compile", 3000, 30000)],
+   thorough_corr=[("pipes-exh-4", "compile", 0, 0)],
+   oracle=[("pipes", "oracle-C13", 1500, 15000)],
+   corpus=["compile.txt"], tables=["Gen/AstTables.v: can_attach_sort, split_cond_sort, split_cond_take, split_cond_top"]),
+ "C05": dict(
+   corr=[("prog", "compile", 3000, 30000), ("prog-mut", "compile", 3000, 30000), ("pipes", "compile", 1500, 15000), ("joins", "compile", 1500, 15000)],
+   oracle=[("prog-mut", "oracle-C13", 1500, 15000)],
+   corpus=["compile.txt"], tables=["Gen/Tables.v: op_prec, binop_sql, join_types"]),
+ "C06": dict(
+   corr=[("lets", "compile", 4000, 40000), ("prog-params", "compile", 3000, 30000)],
+   oracle=[("lets", "oracle-C13", 2000, 20000), ("lets", "oracle-C14", 500, 5000)],
+   corpus=["compile.txt"], tables=["Gen/Tables.v: builtin_idents"]),
+ "C07": dict(
+   corr=[("prog", "parse", 4000, 40000), ("expr", "parse", 3000, 30000), ("prog-flat", "parse", 2000, 20000), ("pipes", "parse", 1500, 15000), ("joins", "parse", 1500, 15000)],
+   oracle=[("expr", "oracle-C07", 3000, 30000), ("prog", "oracle-C07", 2000, 20000), ("prog-mut", "oracle-C07", 2000, 20000), ("joins", "oracle-C07", 1000, 10000)],
+   oracle_for_stage={"parse": ["oracle-C07", "oracle-C08"]},
+   corpus=["parse.txt"], tables=["Gen/Tables.v: op_prec, keywords, join_types"]),
+ "C08": dict(
+   corr=[("prog-mut", "parse", 6000, 60000), ("bytes-rand", "parse", 3000, 30000), ("prog", "parse", 2000, 20000), ("bytes-exh-3", "parse", 0, 0), ("deep", "parse", 200, 2000)],
+   oracle=[("prog-mut", "oracle-C08", 6000, 60000), ("prog", "oracle-C08", 3000, 30000), ("prog-hostile", "oracle-C08", 2000, 20000), ("bytes-rand", "oracle-C08", 2000, 20000)],
+   oracle_for_stage={"parse": ["oracle-C08", "oracle-C07"]},
+   corpus=["parse.txt"], tables=["Gen/Tables.v: op_prec"]),
+ "C10": dict(
+   corr=[("prog", "spans", 4000, 40000), ("prog", "parse", 3000, 30000), ("prog-mut", "parse", 3000, 30000), ("prog-hostile", "spans", 1500, 15000), ("joins", "spans", 1000, 10000)],
+   oracle=[("prog", "oracle-C10", 4000, 40000), ("prog-mut", "oracle-C10", 3000, 30000), ("prog-hostile", "oracle-C10", 1500, 15000), ("bytes-rand", "oracle-C10", 1500, 15000)],
+   oracle_for_stage={"parse": ["oracle-C10"], "spans": ["oracle-C10"]},
+   corpus=["parse.txt"], tables=["Gen/AstTables.v: ast_fields, span_parts"],
+   assumptions=["spans inside the partial trees returned with a parse error are checked on the implementation only (the model builds no partial trees)"]),
+ "C11": dict(
+   corr=[("walk", "walk", 6000, 60000)],
+   oracle=[("walk", "oracle-C11", 6000, 60000)],
+   oracle_for_stage={"walk": ["oracle-C11"]},
+   corpus=["walk.txt"], tables=["Gen/AstTables.v: walk_children, ast_fields"]),
+ "C12": dict(
+   corr=[("bytes-rand", "scan", 2000, 20000, "status"), ("bytes-rand", "parse", 3000, 30000, "status"), ("prog-mut", "compile", 3000, 30000, "status"),
+         ("deep", "compile", 300, 3000, "status"), ("deep", "parse", 300, 3000, "status"), ("walk", "walk", 2000, 20000, "status"), ("prog-params", "compile", 1500, 15000, "status")],
+   oracle=[("bytes-rand", "oracle-C12", 3000, 30000), ("prog-mut", "oracle-C12", 3000, 30000), ("deep", "oracle-C12", 300, 3000), ("prog-params", "oracle-C12", 1500, 15000), ("bytes-exh-3", "oracle-C12", 0, 0)],
+   corpus=["parse.txt", "lex.txt", "compile.txt"], tables=["Gen/AstTables.v: walk_children"],
+   assumptions=["wall-clock time, Go stack growth and allocation are observed by the harness watchdog (5 s per call), not proved"]),
+ "C13": dict(
+   corr=[("rules", "compile", 5000, 50000, "status"), ("prog-mut", "compile", 3000, 30000, "status"), ("prog-params", "compile", 2000, 20000, "status"), ("lets", "compile", 1500, 15000, "status")],
+   oracle=[("rules", "oracle-C13", 5000, 50000), ("prog-mut", "oracle-C13", 3000, 30000), ("prog-params", "oracle-C13", 2000, 20000), ("lets", "oracle-C13", 1500, 15000), ("bytes-rand", "oracle-C13", 1500, 15000)],
+   oracle_for_stage={"compile": ["oracle-C13"]},
+   corpus=["compile.txt"], tables=["Gen/Tables.v: known_funcs, writer_arity, join_types"]),
+ "C14": dict(
+   corr=[("prog-params", "compile", 3000, 30000), ("lets", "compile", 1500, 15000)],
+   oracle=[("prog-params", "oracle-C14", 1500, 15000), ("lets", "oracle-C14", 1500, 15000), ("prog-mut", "oracle-C14", 1000, 10000)],
+   race=True,
+   corpus=["compile.txt"], tables=["Gen/Shared.v: package_vars, write_sites"],
+   assumptions=["absence of data races under the Go memory model is observed with the race detector (harness built with -race for the C14 oracle), not proved; sync.Once's contract is trusted"]),
+ "C16": dict(
+   corr=[("script", "cli", 500, 5000)],
+   oracle=[("script", "oracle-C16", 500, 5000)],
+   oracle_for_stage={"cli": ["oracle-C16"]},
+   corpus=["cli.txt"], tables=[],
+   assumptions=["OS-level I/O (partial writes, signals, terminal detection, file-system errors other than a missing file) is outside the model",
+                "bufio.Scanner's line splitting and 64 KiB limit are modelled in events_of (coq/Model/Show.v) and tied by correspondence"]),
 }
